@@ -5,7 +5,7 @@
 //! an identically constructed fresh instance; prefix relation for the one-shots.
 
 use crate::common::*;
-use crate::{ensure, ensure_eq_bytes};
+use crate::{ensure, ensure_eq_bytes, pick};
 use vp_base::obj::*;
 use vp_base::tape::{self, Tape};
 
@@ -54,7 +54,7 @@ fn classify(r: &mut Report, cuts: &[usize], bs: usize) {
 }
 
 fn streams(ctx: &Ctx, t: &mut Tape<'_>, r: &mut Report) -> CheckResult {
-    let suite = ctx.pick_suite(t, |_| true);
+    let suite = pick!(ctx, t, r, |_| true);
     let f = &suite.streams[t.idx(suite.streams.len())];
     let bs = suite.info.bs;
     let key = gen_key(t, suite);
@@ -94,7 +94,7 @@ fn streams(ctx: &Ctx, t: &mut Tape<'_>, r: &mut Report) -> CheckResult {
 
 fn buffered(ctx: &Ctx, t: &mut Tape<'_>, r: &mut Report) -> CheckResult {
     let dir = t.pick(&[Direction::Enc, Direction::Dec]);
-    let suite = ctx.pick_suite(t, |_| true);
+    let suite = pick!(ctx, t, r, |_| true);
     let f = suite.buf(dir).unwrap();
     let bs = suite.info.bs;
     let key = gen_key(t, suite);
@@ -123,7 +123,7 @@ fn buffered(ctx: &Ctx, t: &mut Tape<'_>, r: &mut Report) -> CheckResult {
 fn prefix(ctx: &Ctx, t: &mut Tape<'_>, r: &mut Report) -> CheckResult {
     let mode = t.pick(&[Mode::Cfb, Mode::Cfb8]);
     let dir = t.pick(&[Direction::Enc, Direction::Dec]);
-    let suite = ctx.pick_suite(t, |_| true);
+    let suite = pick!(ctx, t, r, |_| true);
     let f = suite.block_mode(mode, dir).unwrap();
     let bs = suite.info.bs;
     let key = gen_key(t, suite);
